@@ -18,11 +18,11 @@ class Prop:
     chunk = 100
     time_unit = "virtual seconds (VT part) / simulated seconds (TH part)"
     rule = ("VT: seeded periods, dispose instants and raise positions for schedule_periodic on VirtualTimeScheduler, TestScheduler, "
-            "HistoricalScheduler (datetime clock) and CatchScheduler over a virtual scheduler, and for interval / timer(due, period): tick k "
+            "HistoricalScheduler (datetime clock) and CatchScheduler over a virtual scheduler, and for interval / timer(due, period) (also with a due time already past at subscription): tick k "
             "must run exactly at k*period (also when a tick itself takes virtual time, less than a period) with the state returned by tick k-1, no tick may start after dispose() returned, none after a tick "
             "raised, interval/timer emit 0,1,2,... at those ticks. TH: the same on EventLoopScheduler, NewThreadScheduler and "
             "TimeoutScheduler (bare, or wrapped in a CatchScheduler whose handler swallows or refuses the exception) with a controlled disposing thread, "
-            "0-3 forced pre-emptions (some of them stalls: the thread stays off the CPU for 0.3-40 simulated ms), spurious wake-ups and clock drift: ticks never "
+            "0-3 forced pre-emptions (some of them stalls: the thread stays off the CPU for 0.3-40 simulated ms), spurious wake-ups and clock drift, ticks that take 0-3 periods of simulated time themselves: ticks never "
             "early (tick k not before k*period after scheduling) and not missing (all but the last elapsed period have ticked when dispose() is called, "
             "also on a scheduler whose worker thread is already alive and idle), state threaded, ticks serial, none after a raise, and after dispose() "
             "returned at most the one tick the worker had already committed to (none if the worker was blocked or the dispose came from "
@@ -35,13 +35,14 @@ class Prop:
     def generate(self, rng, tier):
         if rng.random() < 0.55:
             return {"mode": "vt", "on": rng.choice(["vts", "test", "historical", "catch", "interval", "timer"]), "period": rng.choice([1, 5, 10, 30]),
-                    "due": rng.choice([0, 5, 10, 25]), "dispose_at": rng.choice([None, None, 7, 10, 20, 35, 50, 95]), "tie": rng.choice(["early", "late"]),
+                    "due": rng.choice([0, 5, 10, 25, 25, -5, -50]), "dispose_at": rng.choice([None, None, 7, 10, 20, 35, 50, 95]), "tie": rng.choice(["early", "late"]),
                     "raise_at": rng.choice([None, None, None, 0, 1, 3]), "dispose_in_tick": rng.choice([None, None, None, 1, 2]),
                     "work": rng.choice([0, 0, 0, 0.5, 2.5, 3])}  # virtual time a tick itself takes (less than the period, else 0)
         return {"mode": "th", "on": rng.choice(["eventloop", "newthread", "timeout"]), "period_ms": rng.choice([1, 2, 5, 10]),
                 "dispose_after_ms": rng.choice([0, 1, 3, 7, 12, 25]), "raise_at": rng.choice([None, None, None, 0, 1, 2]),
                 "dispose_in_tick": rng.choice([None, None, None, 1, 2]), "sched": th.gen_sched(rng, spurious_p=0.3, drift_p=0.3, sweep_p=0.02, stall_p=0.5),
                 "catch": rng.choice([None, None, None, True, True, False]),  # wrapped in a CatchScheduler whose handler returns this
+                "tick_work": rng.choice([0, 0, 0, 0.5, 1.5, 3]),  # simulated time a tick itself takes, in periods (more than 1: the tick overruns its period)
                 "warm": rng.random() < 0.4}  # the scheduler has already run something: its worker thread (if it keeps one) is alive and idle
 
     def execute(self, sc):
@@ -56,7 +57,7 @@ class Prop:
         w = vt.World({"vts": "vts", "test": "test", "historical": "historical", "catch": "vts", "interval": "test", "timer": "historical"}[on])
         period = sc["period"]
         work = sc.get("work", 0)
-        work = work if work < period else 0
+        work = work if work < period and not (on == "timer" and sc["due"] < 0) else 0
         ticks = []  # (seq, t, state)
         handled = []
         box = {}
@@ -120,8 +121,19 @@ class Prop:
         # expected ticks: t0 + first + k*period, until dispose / raise / horizon
         exp = []
         k = 0
+        late_grid = None
+        if on == "timer" and first < 0:
+            # a due time already past at subscription: tick 0 runs at once, the following ones stay on the grid due + k*period
+            # (a tick that would still be in the past is pushed one period behind "now")
+            late_grid, now_, dt_ = [float(t0)], float(t0), float(t0 + first)
+            while now_ <= horizon:
+                dt_ += period
+                if dt_ <= now_:
+                    dt_ = now_ + period
+                late_grid.append(dt_)
+                now_ = dt_
         while True:
-            t = t0 + first + k * period
+            t = t0 + first + k * period if late_grid is None else late_grid[k]
             if t > horizon:
                 break
             if sc["dispose_at"] is not None:
@@ -191,6 +203,8 @@ class Prop:
                     st["inside"] = k
                     st["ticks"].append((sim.tick(), sim.now, state, sim.current.kind))
                     sim.yield_point("tick.body")
+                    if sc.get("tick_work"):
+                        sim.sleep(sc["tick_work"] * period)  # the tick takes time (possibly more than a period)
                     if sc["dispose_in_tick"] is not None and k == sc["dispose_in_tick"]:
                         dispose(True)
                     st["inside"] = None
@@ -249,7 +263,7 @@ class Prop:
             want = 1 if (sc["raise_at"] is not None and len(ticks) > sc["raise_at"]) else 0
             if len(st["handled"]) != want or any(not isinstance(e, Boom) for e in st["handled"]):
                 bad("raise-propagation", "CatchScheduler's handler saw %r, expected %d call(s) with the exception of tick %s" % (st["handled"], want, sc["raise_at"]))
-        if "disp_inv_t" in st and not sim.faults["clock_drift"] and not sim.faults["stall"] and sc["raise_at"] is None and sc["dispose_in_tick"] is None:
+        if "disp_inv_t" in st and not sim.faults["clock_drift"] and not sim.faults["stall"] and not sc.get("tick_work") and sc["raise_at"] is None and sc["dispose_in_tick"] is None:
             # progress: by the time the disposing thread calls dispose(), all but the last of the periods that have elapsed have ticked
             # (the clock only moves with the run: 1 us per step, jumps to the next timer when every thread waits)
             # each tick costs simulated time of its own (1 us per executed line) that the scheduler does not compensate for: 300 us of
